@@ -10,6 +10,7 @@ import (
 	"context"
 	"fmt"
 	"runtime"
+	"strconv"
 	"strings"
 	"sync"
 
@@ -27,7 +28,13 @@ type workItem struct {
 	mk   func() func() string // a fresh closure over freshly built values
 }
 
-func c13Items(g *Rng, n int) []workItem {
+func c13Items(g *Rng, n int) []workItem { return c13ItemsOf(g, n, false) }
+
+// c13ItemsOf with cold=true builds only items whose construction runs no library code (encodes and
+// String() of freshly built structures): they can be executed concurrently before anything in the
+// process has touched the library, so that lazily initialised or lazily grown shared state is first
+// reached by several goroutines at once.
+func c13ItemsOf(g *Rng, n int, cold bool) []workItem {
 	names := pduNames()
 	texts := []string{"hello world", "héllo wörld ñ", "你好，世界。短信测试", "price 12€ {ok} [x]", "😀 emoji 😀", "@£$¥ èéùìò Ç Ø ø Å å"}
 	var items []workItem
@@ -37,9 +44,21 @@ func c13Items(g *Rng, n int) []workItem {
 		if s == nil {
 			continue
 		}
-		switch k := g.Intn(12); {
+		k := g.Intn(12)
+		if cold {
+			k = g.Intn(4)
+		}
+		switch {
 		case k < 4: // encode (one in six with a value that does not fit: the writer's error path)
 			r := genFit(g, s, false)
+			if g.Intn(2) == 0 { // content shorter than its declared length: the writer pads the slot
+				for f := range s.body {
+					if v := r[f]; len(v.str) > 0 {
+						v.str = nonNil(v.str[:g.Intn(len(v.str))])
+						r[f] = v
+					}
+				}
+			}
 			if g.Intn(6) == 0 {
 				if ro, _, ok := genOverlong(g, s); ok {
 					r = ro
@@ -176,6 +195,44 @@ func runC13(res *Result, d *Driver, g *Rng, tier string) {
 		nItems, rounds = 6000, 12
 	}
 	defer runtime.GOMAXPROCS(runtime.GOMAXPROCS(0))
+	// ---- cold phase: concurrency first, the sequential oracle afterwards ----
+	{
+		runtime.GOMAXPROCS(16)
+		cold := c13ItemsOf(g, 4000, true)
+		got := make([]string, len(cold))
+		const ng = 16
+		var wg sync.WaitGroup
+		for k := 0; k < ng; k++ {
+			wg.Add(1)
+			go func(k int) {
+				defer wg.Done()
+				for i := k; i < len(cold); i += ng {
+					f := cold[i].mk()
+					func() {
+						defer func() {
+							if r := recover(); r != nil {
+								got[i] = "panic"
+							}
+						}()
+						got[i] = f()
+					}()
+				}
+			}(k)
+		}
+		wg.Wait()
+		for i, it := range cold {
+			f := it.mk()
+			var s string
+			if o := Guard(func() { s = f() }); o.Panic != "" {
+				s = "panic"
+			}
+			res.Eval(fmt.Sprintf("cold/%d", i), true)
+			if s != got[i] {
+				res.Violate("C13.differs-from-sequential:cold-"+strings.SplitN(it.desc, " ", 2)[0], fmt.Sprintf("run first thing in the process on 16 goroutines `%s` returned %.80s…, alone afterwards it returns %.80s…", it.desc, got[i], s), []string{it.desc})
+			}
+		}
+		res.Count("cold-phase-items=" + strconv.Itoa(len(cold)))
+	}
 	for round := 0; round < rounds; round++ {
 		items := c13Items(g, nItems)
 		oracle := make([]string, len(items))
